@@ -10,9 +10,12 @@
              declarations referring to each other (sharing, cycles, unresolved names);
              arrays of structs/unions, arrays of arrays, empty structs
      "anon"  anonymous inline struct/union members   (impl /= ABI: witness of a finding)
-     "wide"  members that are enumerations needing 64 bits (impl /= ABI: witness of a finding) *)
+     "wide"  members that are enumerations needing 64 bits (impl /= ABI: witness of a finding)
+     "hidden" by-value members whose type the GIR does not describe (impl /= property: witness)
+   Small = TRUE shrinks "nest" (5 leaves instead of 10) and drops the environments of "misc":
+   the quick tier.  FlatLen bounds the sequence length of "flat". *)
 EXTENDS Layout
-CONSTANTS Mode, FlatLen
+CONSTANTS Mode, FlatLen, Small
 
 Seqs(S, n) == UNION {[1..k -> S] : k \in 0..n}
 Seqs1(S, n) == UNION {[1..k -> S] : k \in 1..n}
@@ -24,7 +27,8 @@ K14 == { Sc("uint8"), Sc("int16"), Sc("int"), Sc("long"), Sc("float"), Sc("doubl
          St(<<Sc("uint8"), Arr(2, Sc("int16"))>>), Un(<<Sc("double"), Arr(3, Sc("uint8"))>>) }
 
 A3 == {Sc("uint8"), Sc("int32"), Sc("double")}
-I10 == A3 \cup {Arr(n, a) : n \in {1, 3}, a \in A3} \cup {Sc("unknown")}
+I10 == IF Small THEN A3 \cup {Arr(3, Sc("uint8")), Sc("unknown")}
+       ELSE A3 \cup {Arr(n, a) : n \in {1, 3}, a \in A3} \cup {Sc("unknown")}
 Inner == {St(s) : s \in Seqs1(I10, 2)} \cup {Un(s) : s \in Seqs1(I10, 2)}
 
 \* misc: arrays of composites, empty struct, every scalar kind once, pointer flavours
@@ -47,6 +51,7 @@ Members == CASE Mode = "flat" -> K14
              [] Mode = "anon" -> {Sc("uint8"), Sc("double"), ASt(<<Sc("int32"), Sc("uint8")>>), AUn(<<Sc("double"), Sc("uint8")>>)}
              [] Mode = "wide" -> {Sc("uint8"), Sc("int32"), En(R("0"), R("4294967296")), En(R("-1"), R("2147483648")),
                                   En(R("-2147483649"), R("0"))}
+             [] Mode = "hidden" -> {Sc("uint8"), Sc("double"), Sc("hid3"), Sc("hid8"), Sc("hid12"), Sc("hid16")}
              [] OTHER -> {}
 MaxLen == CASE Mode = "flat" -> FlatLen [] Mode = "nest" -> 2 [] OTHER -> 3
 
@@ -54,8 +59,8 @@ VARIABLE c
 Init == \/ c \in {LCase(kd, <<>>) : kd \in Kinds2}
         \/ Mode = "misc" /\ \/ c \in {LCase(kd, <<Sc("uint8"), a, Sc("uint8")>>) : kd \in Kinds2, a \in AllScalars}
                              \/ c \in {[kind |-> "enum", ms |-> <<>>, lo |-> l, hi |-> l, env |-> <<>>] : l \in ValidRanks}
-                             \/ c \in {[kind |-> "env", ms |-> <<>>, lo |-> 2, hi |-> 0, env |-> <<a>>] : a \in Decl2}
-                             \/ c \in {[kind |-> "env", ms |-> <<>>, lo |-> 3, hi |-> 0, env |-> <<a>>] : a \in Decl3}
+                             \/ ~Small /\ c \in {[kind |-> "env", ms |-> <<>>, lo |-> 2, hi |-> 0, env |-> <<a>>] : a \in Decl2}
+                             \/ ~Small /\ c \in {[kind |-> "env", ms |-> <<>>, lo |-> 3, hi |-> 0, env |-> <<a>>] : a \in Decl3}
 Next == \/ /\ c.kind \in Kinds2 /\ Len(c.ms) < MaxLen
            /\ \E m \in Members : c' = [c EXCEPT !.ms = Append(@, m)]
         \/ /\ c.kind = "enum" /\ c.lo = c.hi
@@ -67,12 +72,13 @@ Next == \/ /\ c.kind \in Kinds2 /\ Len(c.ms) < MaxLen
 IsLayout == c.kind \in Kinds2
 \* the observation the implementation layer predicts; the ABI layer stands in for gcc
 ObsOf(kd, ms, wf) ==
-    LET A == AbiLayout(kd, ms)
+    LET A == CLayout(kd, ms)
         E == Encode(ImplLayout(kd, ms), wf) IN
-    [kind |-> kd, ms |-> ms, produced |-> E.produced, tl |-> [size |-> E.size, align |-> E.align, offs |-> E.offs],
+    [kind |-> kd, ms |-> ms, produced |-> E.produced,
+     tl |-> [size |-> E.size, align |-> E.align, offs |-> IF E.produced THEN ExpandOffs(ms, E.offs, 1, 1) ELSE <<>>],
      gcc |-> [ok |-> A.known, size |-> A.size, align |-> A.align, offs |-> A.offs]]
 PropertyOn(r) == TypelibEqualsGcc(r) /\ Compiled(r) /\ UnknownRecordedAsUnknown(r)
-InStatement(ms) == ~HasAnon(ms) /\ ~HasWideEnum(ms)          \* outside: the two recorded deviations
+InStatement(ms) == ~HasAnon(ms) /\ ~HasWideEnum(ms) /\ ~HasHidden(ms)      \* outside: the three recorded deviations
 
 Sane == IsLayout => IF c.kind = "union" THEN SaneUnion(c.ms) ELSE SaneStruct(c.ms)
 \* implementation layer => property layer, for g-ir-compiler (warnings fatal) and for the library code
